@@ -205,8 +205,12 @@ def explore(run, tier):
                  'blkcut:3036:1', 'pc:1014', 'pc:5']:
         for reads in ([None], [None, None], [None, 4], [4, None], [1, None, None], [5000], [0 or None, 1]):
             cases.append({'k': 'reads', 'file': spec, 'reads': reads})
-        for reads in ([None], [4, None], [1012, 1012, None], [3000, None], [5000, None]):
-            cases.append({'k': 'reads', 'file': spec, 'reads': reads, 'twice': True})
+        if spec.startswith(('blk:', 'hex:')):
+            # (the second pass only on WHOLE blocked files: what an unblocker does after it has been read to the end of a
+            # file cut inside a block and is then rewound is outside what the property speaks of — a rewrite that keeps its
+            # position inside the current block across the rewind was reported here, wrongly: see DESIGN §13.4)
+            for reads in ([None], [4, None], [1012, 1012, None], [3000, None], [5000, None]):
+                cases.append({'k': 'reads', 'file': spec, 'reads': reads, 'twice': True})
     # the list-returning convenience reader over blocked byte strings of one to eight blocks
     for lens in ([5], [1004], [1005], [900, 900], [1000, 1000, 1000], [2500, 17, 3000], [500] * 12, [6000], [1012] * 7,
                  [3, 2020, 3, 1008, 1]):
